@@ -1,4 +1,5 @@
 -- root of the library: everything the checks build
 import CtyModel.Props.C07
 import CtyModel.Props.C03
+import CtyModel.Props.C10
 import CtyModel.Props.C13
